@@ -8,6 +8,15 @@ package props
 //	multi-*           MultiRowGroup(file.RowGroups()...)     multiPages / multi row reader (multi_row_group.go)
 //	merge-rows-seq    MergeRowGroups(file.RowGroups())       merged view without sorting columns
 //	convert-rows-seq  ConvertRowGroup(rg, fields reordered)  convertedPages / converted rows (convert.go)
+//	mergeK-readers-inP  MergeRowReaders of K = 2, 3 row readers ordered by the ascending "id" column: the
+//	                  row group with the corrupted page is input number P (0-based), the other K-1 inputs
+//	                  are the same row group of the unaltered file (every key ties: both inputs are
+//	                  consumed in step and each is refilled again and again)   merge.go: mergedRowReader2
+//	                  (K = 2), mergedRowReader (loser tree, K >= 3), bufferedRowReader
+//	mergeK-groups-inP   MergeRowGroups of the same K row groups with SortingColumns(Ascending("id")):
+//	                  mergedRowGroup / mergedRowGroupRows, overlap detection and refinement in front
+//	merge-readers-own / merge-groups-own   the row groups of the altered file itself (disjoint key
+//	                  ranges: one input is drained after the other; sortedSegmentRowGroup)
 //	reader-*          NewReader(file) (deprecated Reader)    ReadRows and Read(&T)
 //	generic-reset     GenericReader[T]: read to the failure, Reset(), read again (twice)
 //	reader-reset      the same on the deprecated Reader (Read(&T), Reset())
@@ -27,9 +36,11 @@ package props
 
 import (
 	"bytes"
+	"cmp"
 	"errors"
 	"fmt"
 	"io"
+	"strings"
 
 	"github.com/parquet-go/parquet-go"
 )
@@ -126,6 +137,72 @@ func c13ReadOldReaderRows(r *parquet.Reader, from int64) (any, error) {
 	return out, errors.New("c13: reader does not terminate")
 }
 
+// c13ReadRowReader drains a RowReader that is not a Rows (MergeRowReaders); closers are closed at the end
+func c13ReadRowReader(rows parquet.RowReader, closers []io.Closer) (any, error) {
+	defer func() {
+		for _, c := range closers {
+			c.Close()
+		}
+	}()
+	var out []parquet.Row
+	buf := make([]parquet.Row, 29)
+	for spins := 0; spins < 1<<16; spins++ {
+		n, err := rows.ReadRows(buf)
+		if err != nil && err != io.EOF {
+			return out, err
+		}
+		for i := 0; i < n; i++ {
+			out = append(out, buf[i].Clone())
+		}
+		if err == io.EOF {
+			return out, nil
+		}
+	}
+	return out, errors.New("c13: reader does not terminate")
+}
+
+// c13SortedSchema: the schemas whose first leaf column ("id", required) ascends with the row number, so
+// that every row group is a legal input of a sorted merge
+func c13SortedSchema(schema string) bool { return schema == "flat" || schema == "nested" }
+
+func c13CompareID(a, b parquet.Row) int { return cmp.Compare(a[0].Int64(), b[0].Int64()) }
+
+// mergeInputs: k row groups, number pos is row group g of f (the altered file), the others are row
+// group g of the unaltered file, each from an open of its own
+func (e *c13Env) mergeInputs(f *parquet.File, g, k, pos int) ([]parquet.RowGroup, error) {
+	in := make([]parquet.RowGroup, k)
+	for i := range in {
+		if i == pos {
+			in[i] = f.RowGroups()[g]
+			continue
+		}
+		pf, err := c13Open(e.data)
+		if err != nil {
+			return nil, err
+		}
+		in[i] = pf.RowGroups()[g]
+	}
+	return in, nil
+}
+
+func c13MergeReaders(in []parquet.RowGroup) (any, error) {
+	readers := make([]parquet.RowReader, len(in))
+	closers := make([]io.Closer, len(in))
+	for i, rg := range in {
+		rows := rg.Rows()
+		readers[i], closers[i] = rows, rows
+	}
+	return c13ReadRowReader(parquet.MergeRowReaders(readers, c13CompareID), closers)
+}
+
+func c13MergeGroups(in []parquet.RowGroup) (any, error) {
+	m, err := parquet.MergeRowGroups(in, parquet.SortingRowGroupConfig(parquet.SortingColumns(parquet.Ascending("id"))))
+	if err != nil {
+		return nil, err
+	}
+	return c13ReadRows(m.Rows(), -1)
+}
+
 // entryAccesses appends the wrapper paths for a fault in page p. ks are the rows (within the row
 // group) the seek variants target.
 func (e *c13Env) entryAccesses(p c13Page, ks []int64, add func(path string, k int64, model string, run func(data []byte) (any, error))) {
@@ -159,6 +236,31 @@ func (e *c13Env) entryAccesses(p c13Page, ks []int64, add func(path string, k in
 		}
 		return c13ReadRows(m.Rows(), -1)
 	})
+	if c13SortedSchema(e.cfg.Schema) {
+		// sorted merges: the corrupted row group at every input position of the two-way and of the k-way
+		// merge reader
+		for k := 2; k <= 3; k++ {
+			for pos := 0; pos < k; pos++ {
+				k, pos := k, pos
+				wrap(fmt.Sprintf("merge%d-readers-in%d", k, pos), -1, func(f *parquet.File) (any, error) {
+					in, err := e.mergeInputs(f, g, k, pos)
+					if err != nil {
+						return nil, err
+					}
+					return c13MergeReaders(in)
+				})
+				wrap(fmt.Sprintf("merge%d-groups-in%d", k, pos), -1, func(f *parquet.File) (any, error) {
+					in, err := e.mergeInputs(f, g, k, pos)
+					if err != nil {
+						return nil, err
+					}
+					return c13MergeGroups(in)
+				})
+			}
+		}
+		wrap("merge-readers-own", -1, func(f *parquet.File) (any, error) { return c13MergeReaders(f.RowGroups()) })
+		wrap("merge-groups-own", -1, func(f *parquet.File) (any, error) { return c13MergeGroups(f.RowGroups()) })
+	}
 	wrap("convert-rows-seq", -1, func(f *parquet.File) (any, error) {
 		// the same fields in another order (Group sorts by name): every column is moved
 		grp := parquet.Group{}
@@ -264,6 +366,9 @@ func (e *c13Env) entryAccesses(p c13Page, ks []int64, add func(path string, k in
 
 // c13IsEntryPath: the wrapper paths of this file (they run on a third of the faults)
 func c13IsEntryPath(path string) bool {
+	if strings.HasPrefix(path, "merge") {
+		return true
+	}
 	switch path {
 	case "column-pages-seq", "column-pages-seek", "multi-rows-seq", "multi-rows-seek", "multi-pages-seq", "merge-rows-seq",
 		"convert-rows-seq", "reader-rows-seq", "reader-rows-seek", "reader-read-seq", "reader-read-seek", "rowgroup-reader",
